@@ -1,5 +1,5 @@
 CONSTANTS
-  NR = 3
+  NR = 2
   NC = 3
   Checked = FALSE
 INIT Init
